@@ -1,0 +1,12 @@
+//go:build verif
+
+package json
+
+// Contracts for the govc verifier (/verif). Comment-only file: it contains no
+// executable code and is compiled only with the build tag `verif`.
+
+// Decoding a namespace of a JSON schema must not panic whatever JSON-valid shape, tags, member
+// and applies-to objects it is given (C16: resolution returns a schema or an error for every input).
+//@ func unmarshalNamespace
+//@   props C16
+//@   safety
